@@ -54,14 +54,17 @@ sync_burst(const char *kind, int n, hx_rng *g)
         }
         alarm(30);
         uint32_t r;
+        /* odd burst sizes go through the no-check entry points */
+        const int nocheck = (n & 1) && n > 1;
         if (is_hash)
-                r = (uint32_t) hx_call((void *) M->submit_hash_burst, 4, (uint64_t) M, (uint64_t) arr, (uint64_t) n,
+                r = (uint32_t) hx_call(nocheck ? (void *) M->submit_hash_burst_nocheck : (void *) M->submit_hash_burst, 4, (uint64_t) M, (uint64_t) arr, (uint64_t) n,
                                        (uint64_t) sp0.ha);
         else if (is_aead)
-                r = (uint32_t) hx_call((void *) M->submit_aead_burst, 6, (uint64_t) M, (uint64_t) arr, (uint64_t) n,
+                r = (uint32_t) hx_call(nocheck ? (void *) M->submit_aead_burst_nocheck : (void *) M->submit_aead_burst, 6, (uint64_t) M, (uint64_t) arr, (uint64_t) n,
                                        (uint64_t) sp0.cm, (uint64_t) sp0.dir, (uint64_t) sp0.kl);
         else
-                r = (uint32_t) hx_call((void *) M->submit_cipher_burst, 6, (uint64_t) M, (uint64_t) arr, (uint64_t) n,
+                r = (uint32_t) hx_call(nocheck ? (void *) M->submit_cipher_burst_nocheck : (void *) M->submit_cipher_burst, 6,
+                                       (uint64_t) M, (uint64_t) arr, (uint64_t) n,
                                        (uint64_t) sp0.cm, (uint64_t) sp0.dir, (uint64_t) sp0.kl);
         alarm(0);
         int err = M->imb_errno;
@@ -455,8 +458,8 @@ drv_entry(int argc, char **argv)
                 return 2;
         hx_rng g;
         hx_seed(&g, seed);
-        static const char *burst_kinds[] = { "CBC128E", "CBC192E", "CBC256E", "CBC128D", "CBC256D", "CTR128E", "CTR192E",
-                                             "CTR256E", "ECB128E", "ECB192D", "ECB256E", "CFB128E", "CFB192E", "CFB256E",
+        static const char *burst_kinds[] = { "CBC128E", "CBC192E", "CBC256E", "CBC128D", "CBC192D", "CBC256D", "CTR128E", "CTR192E",
+                                             "CTR256E", "CTR128D", "ECB128E", "ECB192E", "ECB256E", "ECB128D", "ECB192D", "ECB256D", "CFB128E", "CFB192E", "CFB256E",
                                              "CFB128D", "CFB256D", "CCM128E", "CCM128D", "CCM256E", "+HMAC1", "+HMAC224",
                                              "+HMAC256", "+HMAC384", "+HMAC512", "+SHA1", "+SHA224", "+SHA256", "+SHA384",
                                              "+SHA512", "+CMAC", "+CMACBIT", "+CMAC256" };
